@@ -229,8 +229,11 @@ func TestProp_C05_Replay(t *testing.T) {
 // traffic (keys rotate) the very same bytes arrive again.
 type RefReplayCase struct {
 	V    int `json:"v"`
-	Kind int `json:"kind"` // 0 text; 1 text flagged ignore-unreadable; 2 text + extra-key record; 3 flagged text + padding; 4 extra-key record only; 5 flagged text + extra-key record
+	Kind int `json:"kind"` // 0 text; 1 text flagged ignore-unreadable; 2 text + extra-key record; 3 flagged text + padding; 4 extra-key record only; 5 flagged text + extra-key record; 6 text, then two more whose counters jump by 3*2^61
 	Dist int `json:"dist"`
+	// Fault: otr3's randomness source fails once while it processes the first delivery (the rotation the message asks
+	// for cannot happen): whether or not that delivery counts as accepted, the text may come out at most once in all
+	Fault bool `json:"fault,omitempty"`
 }
 
 func runC05RefReplay(c *RefReplayCase) *sim.Outcome {
@@ -245,7 +248,7 @@ func runC05RefReplay(c *RefReplayCase) *sim.Outcome {
 	text := []byte(token(1, 500) + " said once")
 	xk := ref.TLV{Type: ref.TLVExtraKey, Val: append(ref.PutU32(nil, 7), "use"...)}
 	var wire []byte
-	switch c.Kind % 6 {
+	switch c.Kind % 7 {
 	case 0:
 		wire = m.R.Send(text)
 	case 1:
@@ -260,11 +263,35 @@ func runC05RefReplay(c *RefReplayCase) *sim.Outcome {
 	case 5:
 		wire = m.R.SendOpts(text, ref.DataOpts{Flags: 1, TLVs: []ref.TLV{xk}})
 	}
+	if c.Kind%7 == 6 {
+		wire = m.R.Send(text)
+	}
+	if c.Fault {
+		m.A.R.FailAt, m.A.R.FailFor, m.A.R.FailMode = m.A.R.Reads(), 1, c.Dist&1
+	}
+	nSym0 := len(m.A.Sym)
 	first := m.AReceive(wire)
-	if first.Err != nil || (text != nil && !bytes.Equal(first.Plain, text)) {
+	m.A.R.Heal()
+	delivered := 0
+	if first.HasPl && len(first.Plain) > 0 {
+		delivered++
+	}
+	applied := len(m.A.Sym) - nSym0
+	if !c.Fault && (first.Err != nil || (text != nil && !bytes.Equal(first.Plain, text))) {
 		return o.Fail("C05/harness-first-delivery", "the first delivery of a genuine message of the reference (kind %d) failed: %v %q", c.Kind, first.Err, first.Plain)
 	}
 	m.Settle(nil, nil)
+	if c.Kind%7 == 6 {
+		// the peer's counter need only grow: it may grow in big steps
+		for _, ctr := range []uint64{0x6000000000000000, 0xC000000000000000} {
+			ctr := ctr
+			cj := m.AReceive(m.R.SendOpts([]byte(token(1, 600+int(ctr>>62))), ref.DataOpts{Ctr: &ctr}))
+			if cj.Err != nil {
+				return o.Fail("C05/harness-first-delivery", "a genuine message with counter %#x was refused: %v", ctr, cj.Err)
+			}
+		}
+		o.Class("counter-jumps")
+	}
 	for i := 0; i < c.Dist; i++ {
 		m.ASend([]byte(token(0, 10+i)))
 		m.fromR(m.R.Send([]byte(token(1, 10+i))))
@@ -273,6 +300,17 @@ func runC05RefReplay(c *RefReplayCase) *sim.Outcome {
 	for rep := 0; rep < 2; rep++ {
 		nSym, nSMP := len(m.A.Sym), len(m.A.SMP)
 		again := m.AReceive(wire)
+		if again.HasPl && len(again.Plain) > 0 {
+			delivered++
+		}
+		applied += len(m.A.Sym) - nSym
+		if c.Fault {
+			if delivered > 1 || applied > 1 {
+				return o.Fail("C05/text-twice", "a data message of the reference (kind %d) whose first delivery met a failing randomness source came out %d times in all (records acted on %d times) over the first delivery and %d repetitions", c.Kind, delivered, applied, rep+1)
+			}
+			m.QtoR = nil
+			continue
+		}
 		if again.HasPl && len(again.Plain) > 0 {
 			return o.Fail("C05/text-twice", "a data message of the reference (kind %d: flags/records otr3 itself never combines) was delivered again after %d rounds and Receive returned its text %q once more (err=%v)", c.Kind, c.Dist, again.Plain, again.Err)
 		}
@@ -287,13 +325,18 @@ func runC05RefReplay(c *RefReplayCase) *sim.Outcome {
 		m.QtoR = nil
 	}
 	// the conversation goes on
-	m.fromR(m.R.Send([]byte(token(1, 900))))
+	if c.Kind%7 == 6 {
+		ctr := uint64(0xC000000000000005)
+		m.fromR(m.R.SendOpts([]byte(token(1, 900)), ref.DataOpts{Ctr: &ctr}))
+	} else {
+		m.fromR(m.R.Send([]byte(token(1, 900))))
+	}
 	ok := false
 	m.Settle(func(cl *sim.Call) { ok = ok || (cl != nil && findToken(cl.Plain) == token(1, 900)) }, nil)
 	if !ok {
 		return o.Fail("C05/after-replay", "after the replays a fresh genuine message was not delivered")
 	}
-	o.Class(fmt.Sprintf("kind%d-dist%d", c.Kind%6, c.Dist))
+	o.Class(fmt.Sprintf("kind%d-dist%d-fault%v", c.Kind%7, c.Dist, c.Fault))
 	o.NonTrivial = true
 	return o
 }
@@ -304,11 +347,16 @@ func TestProp_C05_RefReplay(t *testing.T) {
 	si, sn := sim.Shard()
 	idx := 0
 	for _, v := range []int{3, 2} {
-		for kind := 0; kind < 6; kind++ {
+		for kind := 0; kind < 7; kind++ {
 			for _, dist := range []int{0, 1, 2, 4} {
-				idx++
-				if idx%sn == si {
-					sim.Judge(t, "C05refreplay", &RefReplayCase{V: v, Kind: kind, Dist: dist})
+				for _, fault := range []bool{false, true} {
+					if fault && (kind == 6 || dist > 1) {
+						continue
+					}
+					idx++
+					if idx%sn == si {
+						sim.Judge(t, "C05refreplay", &RefReplayCase{V: v, Kind: kind, Dist: dist, Fault: fault})
+					}
 				}
 			}
 		}
